@@ -59,7 +59,7 @@ CLAIMED["C03"] = dict(category=_MC,
          "patterns) is accepted. TLC generates ~2900 policies (atoms x guards x connectives x scopes + type probes) over schema Sc2, proves the must-accept fragment sound on the model, "
          "and for every policy recomputes its outcome class on all 960 conformant environments, comparing with the real evaluator's classes and the real validator's verdicts.",
     note="bounded: one schema and its 960-environment universe, generated programs only; environments are accepted by the library's own validation (checked each run). "
-         "Node-by-node static-type inhabitation of the typed AST is not yet compared.")
+         "Typed ASTs (static type of every evaluated subexpression) are checked on a quarter of the universe in the quick tier and all of it in the thorough tier.")
 ENGINES[0]["serves_properties"].append("C13")
 CLAIMED["C13"] = dict(category=_MC,
     text="Partial.tla states the soundness relation of partial authorization over completions (decision in {None, Decision(c)}; must <= Reasons(c) <= may; definitely "
